@@ -328,13 +328,19 @@ Section Open.
       end
     end.
 
-  (* Capabilities.unpack(data[9:]) *)
+  (* which encoding Capabilities.unpack reads: the RFC 9072 one when the type octet is 255 and four octets are there;
+     the length octet must be 255 too (EXT_BY_TYPE_OCTET = false) or merely not zero (true, RFC 9072 2: "ignored") *)
+  Definition ext_selected (d : bytes) : bool :=
+    (if EXT_BY_TYPE_OCTET then negb (nth 0 d 0 =? 0) else nth 0 d 0 =? EXTENDED_LENGTH)
+    && negb (len d <? 4) && (nth 1 d 0 =? EXTENDED_LENGTH).
+
+  (* Capabilities.unpack(data[9:]).  (A length octet 255 with fewer than four octets is refused 2/0 by the base
+     branch's truncation test; the older code has a test of its own for it, with the same answer.) *)
   Definition optparams (d : bytes) : owres :=
     match d with
     | [] => mkO (OOk []) 0
     | ol :: t =>
-      if (ol =? EXTENDED_LENGTH) && (len d <? 4) then mkO (ORefused 2 0) 1
-      else if (ol =? EXTENDED_LENGTH) && (nth 1 d 0 =? EXTENDED_LENGTH) then
+      if ext_selected d then
         let n := rd16 (skipn 2 d) in
         if len d <? n + 4 then mkO (ORefused 2 0) 1
         else let p := firstn (Z.to_nat n) (skipn 4 d) in params_f true (length p) p
